@@ -166,6 +166,9 @@ func (r *Run) Finish() int {
 		fmt.Println("replay: no violation reproduced")
 		return ExitOK
 	}
+	if strings.HasPrefix(r.Prop, "dbg-") {
+		return ExitOK // debugging commands are not checks and write no evidence
+	}
 	ids := make([]string, 0, len(r.kfCount))
 	for id := range r.kfCount {
 		ids = append(ids, id)
